@@ -1089,7 +1089,7 @@ def build_struct(target_host: str, banner: Optional['Banner'], kex: Optional['SS
         res['target'] = target_host
 
     if kex is not None:
-        res['compression'] = kex.server.compression
+        res['compression'] = [x for x in kex.server.compression if x != '']  # An empty name-list is parsed as [''] (as for the algorithm lists below, it yields no entry).
 
         res['kex'] = []
         dh_alg_sizes = kex.dh_modulus_sizes()
